@@ -1,5 +1,440 @@
 (* C10 — proofs. *)
-From Coq Require Import String List ZArith QArith Bool.
-Require Import QV.C10.Model.
+From Coq Require Import String List ZArith QArith Bool Lia.
+Require Import QV.C10.Model QV.C10.Spec.
 Import ListNotations.
 Open Scope string_scope.
+
+(* ---- induction principle for the nested template type ------------------------------------------------------------- *)
+Section PtInd.
+  Variable P : pt -> Prop.
+  Hypothesis HTable : forall h e c m, P (PTable h e c m).
+  Hypothesis HPoint : forall h e ch c m, P (PPoint h e ch c m).
+  Hypothesis HFunc : forall h ex du ch c m, P (PFunc h ex du ch c m).
+  Hypothesis HConst : forall h n du a m, P (PConst h n du a m).
+  Hypothesis HSeq : forall h subs c m, Forall P subs -> P (PSeq h subs c m).
+  Hypothesis HRep : forall h b n c m, P b -> P (PRep h b n c m).
+  Hypothesis HFor : forall h b i r c m, P b -> P (PFor h b i r c m).
+  Hypothesis HMap : forall h t pm mm cm c, P t -> P (PMap h t pm mm cm c).
+  Hypothesis HAmc : forall h subs c m du, Forall P subs -> P (PAmc h subs c m du).
+  Hypothesis HPar : forall h t o, P t -> P (PPar h t o).
+  Hypothesis HArith : forall h t sc l op, P t -> P (PArith h t sc l op).
+  Hypothesis HAA : forall h l r op m, P l -> P r -> P (PAA h l r op m).
+  Hypothesis HRev : forall h t, P t -> P (PRev h t).
+  Hypothesis HAbs : forall h ch pn mn ig du, P (PAbs h ch pn mn ig du).
+  Fixpoint pt_ind2 (p : pt) : P p :=
+    let fix go (l : list pt) : Forall P l :=
+      match l with [] => Forall_nil _ | x :: r => Forall_cons _ (pt_ind2 x) (go r) end in
+    match p with
+    | PTable h e c m => HTable h e c m
+    | PPoint h e ch c m => HPoint h e ch c m
+    | PFunc h ex du ch c m => HFunc h ex du ch c m
+    | PConst h n du a m => HConst h n du a m
+    | PSeq h subs c m => HSeq h subs c m (go subs)
+    | PRep h b n c m => HRep h b n c m (pt_ind2 b)
+    | PFor h b i r c m => HFor h b i r c m (pt_ind2 b)
+    | PMap h t pm mm cm c => HMap h t pm mm cm c (pt_ind2 t)
+    | PAmc h subs c m du => HAmc h subs c m du (go subs)
+    | PPar h t o => HPar h t o (pt_ind2 t)
+    | PArith h t sc l op => HArith h t sc l op (pt_ind2 t)
+    | PAA h l r op m => HAA h l r op m (pt_ind2 l) (pt_ind2 r)
+    | PRev h t => HRev h t (pt_ind2 t)
+    | PAbs h ch pn mn ig du => HAbs h ch pn mn ig du
+    end.
+End PtInd.
+
+(* ---- codecs -------------------------------------------------------------------------------------------------------- *)
+Lemma mapM_map {A B C} (f : C -> result B) (g : A -> C) (h : A -> B) (l : list A) :
+  (forall x, In x l -> f (g x) = Ok (h x)) -> mapM f (map g l) = Ok (map h l).
+Proof.
+  induction l as [|x r IH]; intros H; cbn; [reflexivity|].
+  rewrite (H x (or_introl eq_refl)). cbn. rewrite IH; [reflexivity|]. intros; apply H; now right.
+Qed.
+Lemma mapM_map_id {A} (f : json -> result A) (g : A -> json) (l : list A) :
+  (forall x, f (g x) = Ok x) -> mapM f (map g l) = Ok l.
+Proof. intros H. rewrite (mapM_map f g (fun x => x)); [now rewrite map_id|auto]. Qed.
+
+Lemma dec_enc_expr e : dec_expr (enc_expr e) = Ok e.
+Proof. now destruct e. Qed.
+Lemma dec_enc_vexpr v : dec_vexpr (enc_vexpr v) = Ok v.
+Proof.
+  destruct v as [e|l]; cbn.
+  - destruct e; reflexivity.
+  - rewrite mapM_map_id by apply dec_enc_expr. reflexivity.
+Qed.
+Lemma dec_enc_chan c : dec_chan (enc_chan c) = Ok c.
+Proof. now destruct c. Qed.
+Lemma dec_enc_ochan c : dec_ochan (enc_ochan c) = Ok c.
+Proof. destruct c as [[|]|]; reflexivity. Qed.
+Lemma dec_enc_interp i : dec_interp (enc_interp i) = Ok i.
+Proof. now destruct i. Qed.
+Lemma dec_enc_entry e : dec_entry (enc_entry e) = Ok e.
+Proof.
+  destruct e as [[t v] i]. cbn. rewrite dec_enc_expr, dec_enc_vexpr, dec_enc_interp. reflexivity.
+Qed.
+Lemma dec_enc_meas m : dec_meas (enc_meas m) = Ok m.
+Proof. destruct m as [[n b] l]. cbn. now rewrite !dec_enc_expr. Qed.
+Lemma dec_enc_measl l : dec_list dec_meas (enc_measl l) = Ok l.
+Proof. apply mapM_map_id, dec_enc_meas. Qed.
+Lemma dec_enc_strs l : dec_list dec_str (enc_strs l) = Ok l.
+Proof. apply mapM_map_id. reflexivity. Qed.
+Lemma dec_enc_entries l : dec_list dec_entry (JList (map enc_entry l)) = Ok l.
+Proof. apply mapM_map_id, dec_enc_entry. Qed.
+Lemma dec_enc_chans l : dec_list dec_chan (JList (map enc_chan l)) = Ok l.
+Proof. apply mapM_map_id, dec_enc_chan. Qed.
+
+Lemma str_keys_cs {A} (m : list (chan * A)) : str_keys m = true ->
+  map (fun kv => (CS (key_chan (fst kv)), snd kv)) m = m.
+Proof.
+  induction m as [|[c a] r IH]; cbn; [reflexivity|]. intros H. apply andb_prop in H as [H1 H2].
+  destruct c; [|discriminate]. cbn. now rewrite IH.
+Qed.
+
+Lemma dec_cdict_gen {A} (f : json -> result A) (g : A -> json) (m : list (chan * A)) :
+  (forall x, f (g x) = Ok x) -> str_keys m = true ->
+  dec_cdict f (JObj (map (fun ce => (key_chan (fst ce), g (snd ce))) m)) = Ok m.
+Proof.
+  intros Hf Hk. unfold dec_cdict, dec_dict. cbn.
+  rewrite (mapM_map _ _ (fun ce : chan * A => (key_chan (fst ce), snd ce))).
+  - cbn. rewrite map_map. cbn. now rewrite str_keys_cs.
+  - intros [c a] _. cbn. now rewrite Hf.
+Qed.
+Lemma dec_enc_cdict m : str_keys m = true -> dec_cdict dec_expr (enc_cdict key_chan m) = Ok m.
+Proof. apply dec_cdict_gen, dec_enc_expr. Qed.
+Lemma dec_enc_cmap m : str_keys m = true -> dec_cdict dec_ochan (enc_cmap key_chan m) = Ok m.
+Proof. apply dec_cdict_gen, dec_enc_ochan. Qed.
+Lemma dec_enc_tentries m : str_keys m = true -> dec_cdict (dec_list dec_entry) (enc_entries key_chan m) = Ok m.
+Proof. apply (dec_cdict_gen (dec_list dec_entry) (fun l => JList (map enc_entry l))), dec_enc_entries. Qed.
+
+Lemma dec_dict_gen {A} (f : json -> result A) (g : A -> json) (m : list (string * A)) :
+  (forall x, f (g x) = Ok x) ->
+  dec_dict f (JObj (map (fun ke => (fst ke, g (snd ke))) m)) = Ok m.
+Proof.
+  intros Hf. unfold dec_dict. cbn. rewrite (mapM_map _ _ (fun ke : string * A => ke)).
+  - now rewrite map_id.
+  - intros [k a] _. cbn. now rewrite Hf.
+Qed.
+Lemma dec_enc_pmap m : dec_dict dec_expr (enc_pmap m) = Ok m.
+Proof. apply dec_dict_gen, dec_enc_expr. Qed.
+Lemma dec_enc_mmap m : dec_dict dec_str (enc_mmap m) = Ok m.
+Proof. apply (dec_dict_gen dec_str JStr). reflexivity. Qed.
+
+(* ---- values that the object hook leaves alone ----------------------------------------------------------------------- *)
+Definition is_raw (v : json) : bool :=
+  match v with
+  | JObj vfs => negb (has_key K_TYPE vfs)
+  | JList l => negb (negb (is_nil l) && forallb is_typed l)
+  | _ => true
+  end.
+Lemma dec_field_raw D v st : is_raw v = true -> dec_field_val D v st = Ok (DRaw v, st).
+Proof.
+  destruct v; cbn; try reflexivity.
+  - intros H. apply negb_true_iff in H. now rewrite H.
+  - intros H. apply negb_true_iff in H. now rewrite H.
+Qed.
+Lemma raw_list {A} (g : A -> json) (l : list A) :
+  (forall x, is_typed (g x) = false) -> is_raw (JList (map g l)) = true.
+Proof. intros H. destruct l as [|x r]; cbn; [reflexivity|]. now rewrite H. Qed.
+Lemma raw_expr e : is_raw (enc_expr e) = true. Proof. now destruct e. Qed.
+Lemma raw_chan c : is_raw (enc_chan c) = true. Proof. now destruct c. Qed.
+Lemma raw_strs l : is_raw (enc_strs l) = true. Proof. now apply raw_list. Qed.
+Lemma raw_measl l : is_raw (enc_measl l) = true. Proof. apply raw_list. now intros [[? ?] ?]. Qed.
+Lemma raw_entries l : is_raw (JList (map enc_entry l)) = true. Proof. apply raw_list. now intros [[? ?] ?]. Qed.
+Lemma raw_chans l : is_raw (JList (map enc_chan l)) = true. Proof. apply raw_list. now intros []. Qed.
+
+Lemma has_key_map_false {A B} (kf : A -> string) (g : A -> B) (m : list A) :
+  forallb (fun a => negb (String.eqb (kf a) K_TYPE)) m = true ->
+  has_key K_TYPE (map (fun a => (kf a, g a)) m) = false.
+Proof.
+  unfold has_key. induction m as [|a r IH]; [reflexivity|]. intros H. cbn [forallb] in H.
+  apply andb_prop in H as [H1 H2]. apply negb_true_iff in H1. rewrite String.eqb_sym in H1.
+  cbn [map lookup]. rewrite H1. now apply IH.
+Qed.
+Lemma str_keys_no_type {A} (m : list (chan * A)) : str_keys m = true ->
+  forallb (fun a : chan * A => negb (String.eqb (key_chan (fst a)) K_TYPE)) m = true.
+Proof.
+  induction m as [|[c a] r IH]; cbn; [reflexivity|]. intros H. apply andb_prop in H as [H1 H2].
+  destruct c; [|discriminate]. cbn. rewrite H1. now apply IH.
+Qed.
+Lemma raw_cdict {A} (g : A -> json) (m : list (chan * A)) : str_keys m = true ->
+  is_raw (JObj (map (fun ce => (key_chan (fst ce), g (snd ce))) m)) = true.
+Proof.
+  intros H. cbn. apply negb_true_iff.
+  apply (has_key_map_false (fun ce : chan * A => key_chan (fst ce)) (fun ce => g (snd ce))).
+  now apply str_keys_no_type.
+Qed.
+Lemma raw_sdict {A} (g : A -> json) (m : list (string * A)) : ok_skeys m = true ->
+  is_raw (JObj (map (fun ke => (fst ke, g (snd ke))) m)) = true.
+Proof.
+  intros H. cbn. apply negb_true_iff.
+  now apply (has_key_map_false (fun ke : string * A => fst ke) (fun ke => g (snd ke))).
+Qed.
+
+(* ---- the decoder inverts the encoder (all classes, unbounded nesting) ------------------------------------------- *)
+Definition bump (st : lstate) : lstate := mkL (N.succ (l_next st)) (l_cache st).
+
+Lemma nodes_cons p : nodes p = p :: descendants p.
+Proof. destruct p; reflexivity. Qed.
+
+Lemma sub_typed c : is_typed (sub false to_data c) = true.
+Proof. unfold sub. destruct (pt_id c); [reflexivity|]. destruct c; reflexivity. Qed.
+
+Lemma decode_ref rs i st : decode rs (ref_node i) st = rs st i.
+Proof. reflexivity. Qed.
+
+Lemma opt_field_cases {A} k (enc : list A -> json) l :
+  (l = [] /\ opt_field k enc l = []) \/ (opt_field k enc l = [(k, enc l)]).
+Proof. destruct l; [left|right]; auto. Qed.
+
+Lemma rawl_strs l : rawl dec_str (DRaw (enc_strs l)) = Ok l.
+Proof. unfold rawl, enc_strs. apply dec_enc_strs. Qed.
+Lemma rawl_meas l : rawl dec_meas (DRaw (enc_measl l)) = Ok l.
+Proof. unfold rawl, enc_measl. apply dec_enc_measl. Qed.
+Lemma some_expr e : some (raw dec_expr) (DRaw (enc_expr e)) = Ok (Some e).
+Proof. destruct e; reflexivity. Qed.
+
+Lemma raw_range a b c : is_raw (JList [enc_expr a; enc_expr b; enc_expr c]) = true.
+Proof. now destruct a. Qed.
+Lemma dec_enc_range a b c : dec_range (JList [enc_expr a; enc_expr b; enc_expr c]) = Ok (a, b, c).
+Proof. cbn. now rewrite !dec_enc_expr. Qed.
+
+Lemma anon_map_erase p : is_anon_map_without_constraints (erase p) = is_anon_map_without_constraints p.
+Proof. now destruct p. Qed.
+Lemma anon_map_sim c p : erase c = erase p -> negb (is_anon_map_without_constraints p) = true ->
+  is_anon_map_without_constraints c = false.
+Proof. intros E H. rewrite <- anon_map_erase, E, anon_map_erase. now apply negb_true_iff. Qed.
+
+Definition scalar_ok (sc : scalar) : bool := match sc with SExpr _ => true | SMap m => str_keys m end.
+Lemma raw_scalar sc : scalar_ok sc = true -> is_raw (enc_scalar key_chan sc) = true.
+Proof. destruct sc; cbn [scalar_ok]; intros H; [apply raw_expr|now apply (raw_cdict enc_expr)]. Qed.
+Lemma dscalar_ok sc : scalar_ok sc = true ->
+  match enc_scalar key_chan sc with
+  | JObj _ => do m <- dec_cdict dec_expr (enc_scalar key_chan sc); Ok (SMap m)
+  | _ => do e <- dec_expr (enc_scalar key_chan sc); Ok (SExpr e)
+  end = Ok sc.
+Proof.
+  destruct sc as [e|m]; cbn [scalar_ok]; intros H.
+  - unfold enc_scalar. destruct e; reflexivity.
+  - unfold enc_scalar. change (enc_cdict key_chan m) with (JObj (map (fun ce => (key_chan (fst ce), enc_expr (snd ce))) m)) at 1.
+    cbv iota. change (JObj (map (fun ce => (key_chan (fst ce), enc_expr (snd ce))) m)) with (enc_cdict key_chan m).
+    now rewrite dec_enc_cdict.
+Qed.
+
+Lemma some_chans l : some (raw (dec_list dec_chan)) (DRaw (JList (map enc_chan l))) = Ok (Some l).
+Proof. unfold some, raw. now rewrite dec_enc_chans. Qed.
+Lemma some_strs l : some (raw (dec_list dec_str)) (DRaw (enc_strs l)) = Ok (Some l).
+Proof. unfold some, raw. change (enc_strs l) with (JList (map JStr l)) at 1. cbv iota. change (JList (map JStr l)) with (enc_strs l). now rewrite dec_enc_strs. Qed.
+Lemma some_cdict m : str_keys m = true -> some (raw (dec_cdict dec_expr)) (DRaw (enc_cdict key_chan m)) = Ok (Some m).
+Proof. intros H. unfold some, raw. change (enc_cdict key_chan m) with (JObj (map (fun ce => (key_chan (fst ce), enc_expr (snd ce))) m)) at 1.
+  cbv iota. change (JObj (map (fun ce => (key_chan (fst ce), enc_expr (snd ce))) m)) with (enc_cdict key_chan m). now rewrite dec_enc_cdict. Qed.
+
+Section Core.
+Variable rs : resolver.
+Variable Inv : lstate -> Prop.
+Hypothesis Inv_bump : forall st, Inv st -> Inv (bump st).
+
+Definition res_ok (n : pt) : Prop :=
+  forall i, pt_id n = Some i -> forall st, Inv st ->
+  exists c' st', rs st i = Ok (c', st') /\ erase c' = erase n /\ Inv st'.
+
+Definition dec_ok (j : json) (p : pt) : Prop :=
+  forall st, Inv st -> exists p' st', decode rs j st = Ok (p', st') /\ erase p' = erase p /\ Inv st'.
+
+Lemma dec_sub c : Forall res_ok (nodes c) -> dec_ok (to_data c) c -> dec_ok (sub false to_data c) c.
+Proof.
+  intros Hr IH. unfold sub. destruct (pt_id c) as [i|] eqn:E; [|exact IH].
+  intros st Hst. rewrite decode_ref. rewrite nodes_cons in Hr. inversion Hr; subst. now apply H1.
+Qed.
+
+Lemma dec_elems_ok subs :
+  Forall (fun c => dec_ok (sub false to_data c) c) subs ->
+  forall st, Inv st -> exists subs' st', dec_elems (decode rs) (map (sub false to_data) subs) st = Ok (subs', st')
+                                          /\ map erase subs' = map erase subs /\ Inv st'.
+Proof.
+  induction 1 as [|c r Hc Hr IH]; intros st Hst; cbn.
+  - exists [], st. auto.
+  - destruct (Hc st Hst) as (c' & st1 & E1 & Ee & H1). rewrite E1. cbn.
+    destruct (IH st1 H1) as (r' & st2 & E2 & Er & H2). rewrite E2. cbn.
+    exists (c' :: r'), st2. cbn. now rewrite Ee, Er.
+Qed.
+
+Lemma dec_field_sub c : dec_ok (sub false to_data c) c ->
+  forall st, Inv st -> exists c' st', dec_field_val (decode rs) (sub false to_data c) st = Ok (DSub c', st')
+                                      /\ erase c' = erase c /\ Inv st'.
+Proof.
+  intros H st Hst. destruct (H st Hst) as (c' & st' & E & Ee & Hi).
+  pose proof (sub_typed c) as T. destruct (sub false to_data c) eqn:Es; try discriminate.
+  cbn [is_typed] in T. cbn [dec_field_val]. rewrite T. rewrite E. cbn. eauto.
+Qed.
+
+Lemma dec_field_subs subs : subs <> [] ->
+  Forall (fun c => dec_ok (sub false to_data c) c) subs ->
+  forall st, Inv st -> exists subs' st', dec_field_val (decode rs) (JList (map (sub false to_data) subs)) st = Ok (DSubs subs', st')
+                                          /\ map erase subs' = map erase subs /\ Inv st'.
+Proof.
+  intros Hne H st Hst. destruct (dec_elems_ok subs H st Hst) as (s' & st' & E & Ee & Hi).
+  cbn [dec_field_val].
+  assert (negb (is_nil (map (sub false to_data) subs)) && forallb is_typed (map (sub false to_data) subs) = true) as ->.
+  { assert (forallb is_typed (map (sub false to_data) subs) = true) as ->.
+    { rewrite forallb_forall. intros x Hx. apply in_map_iff in Hx as (c & <- & _). apply sub_typed. }
+    destruct subs; [congruence|reflexivity]. }
+  rewrite E. cbn. eauto.
+Qed.
+
+Arguments enc_expr : simpl never.
+Arguments enc_vexpr : simpl never.
+Arguments enc_chan : simpl never.
+Arguments enc_strs : simpl never.
+Arguments enc_measl : simpl never.
+Arguments enc_cdict : simpl never.
+Arguments enc_entries : simpl never.
+Arguments enc_pmap : simpl never.
+Arguments enc_mmap : simpl never.
+Arguments enc_cmap : simpl never.
+Arguments enc_scalar : simpl never.
+Arguments enc_entry : simpl never.
+Arguments rawl : simpl never.
+Arguments some : simpl never.
+Arguments sub : simpl never.
+Arguments to_data : simpl never.
+Arguments dec_list : simpl never.
+Arguments dec_cdict : simpl never.
+Arguments dec_dict : simpl never.
+Arguments dec_expr : simpl never.
+Arguments dec_chan : simpl never.
+Arguments dec_range : simpl never.
+
+Ltac solve_raw :=
+  first [ reflexivity | apply raw_expr | apply raw_chan | apply raw_strs | apply raw_measl | apply raw_entries
+        | apply raw_chans | apply raw_range | apply raw_scalar; assumption
+        | apply (raw_cdict enc_expr); assumption
+        | apply (raw_cdict enc_ochan); assumption
+        | apply (raw_cdict (fun l => JList (map enc_entry l))); assumption
+        | apply (raw_sdict enc_expr); assumption
+        | apply (raw_sdict JStr); assumption ].
+Ltac raws := repeat (rewrite dec_field_raw by solve_raw; cbn [bind fst snd dec_fields]).
+Ltac parsers :=
+  repeat (first [ rewrite dec_enc_expr | rewrite rawl_strs | rewrite rawl_meas | rewrite dec_enc_chan
+                | rewrite dec_enc_range | rewrite some_chans | rewrite some_strs | rewrite some_cdict by assumption | rewrite dec_enc_entries | rewrite dec_enc_chans | rewrite some_expr
+                | rewrite dec_enc_cdict by assumption | rewrite dec_enc_cmap by assumption
+                | rewrite dec_enc_tentries by assumption | rewrite dec_enc_pmap | rewrite dec_enc_mmap ];
+          cbn [bind]).
+Ltac optf k enc l := destruct (opt_field_cases k enc l) as [[-> ->]| ->].
+Ltac split_and := repeat match goal with H : _ && _ = true |- _ => apply andb_prop in H as [? ?] end.
+Ltac close := cbn [erase]; unfold eh; cbn [h_id]; congruence.
+Ltac done_ok := eexists; eexists; split; [reflexivity|split; [|apply Inv_bump; assumption]].
+
+Lemma nonnil {A} (l : list A) : negb (is_nil l) = true -> l <> [].
+Proof. destruct l; [discriminate|congruence]. Qed.
+Lemma nonnil_b {A} (l : list A) : negb (is_nil l) = true -> is_nil l = false.
+Proof. now destruct l. Qed.
+
+Lemma is_nil_map_eq {A B} (f : A -> B) (a b : list A) : map f a = map f b -> is_nil a = is_nil b.
+Proof. destruct a, b; cbn; congruence. Qed.
+
+Lemma table_nonempty (e : list (chan * list tentry)) :
+  negb (is_nil e) = true -> forallb (fun ce => negb (is_nil (snd ce))) e = true ->
+  is_nil e || existsb (fun ce => is_nil (snd ce)) e = false.
+Proof.
+  intros H1 H2. apply negb_true_iff in H1. rewrite H1. cbn [orb]. clear H1.
+  induction e as [|x r IH]; [reflexivity|]. cbn [forallb existsb] in *. apply andb_prop in H2 as [Ha Hb].
+  apply negb_true_iff in Ha. rewrite Ha. cbn [orb]. now apply IH.
+Qed.
+
+Ltac hdr_split h :=
+  unfold to_data; cbn [to_data_gen tag_of pt_hdr]; change (to_data_gen key_chan false) with to_data;
+  let oid := fresh "oid" in let ident := fresh "ident" in destruct h as [oid [ident|]]; cbn [hdr_fields h_id app decode dec_fields fst snd].
+Ltac named_nonempty := try match goal with H : ok_id {| h_oid := _; h_id := Some ?i |} = true |- _ => destruct i; [discriminate H|] end.
+Ltac fin := named_nonempty; cbn; parsers.
+Ltac use_sub Hc st Hst :=
+  let c' := fresh "c'" in let st1 := fresh "st1" in let E := fresh "E" in let Ee := fresh "Ee" in let Hi := fresh "Hi" in
+  destruct (dec_field_sub _ Hc st Hst) as (c' & st1 & E & Ee & Hi); rewrite E; cbn [bind fst snd dec_fields].
+Ltac use_subs Hne Hc st Hst :=
+  let c' := fresh "s'" in let st1 := fresh "st1" in let E := fresh "E" in let Ee := fresh "Ee" in let Hi := fresh "Hi" in
+  destruct (dec_field_subs _ Hne Hc st Hst) as (c' & st1 & E & Ee & Hi); rewrite E; cbn [bind fst snd dec_fields].
+
+Ltac use_subsN subs Hc st Hst := match goal with Hn : negb (is_nil subs) = true |- _ => use_subs (nonnil _ Hn) Hc st Hst end.
+
+Lemma child_ok c : (wf c = true -> Forall res_ok (descendants c) -> dec_ok (to_data c) c) ->
+  wf c = true -> Forall res_ok (nodes c) -> dec_ok (sub false to_data c) c.
+Proof.
+  intros IH Hw Hr. apply dec_sub; [exact Hr|]. apply IH; [exact Hw|]. rewrite nodes_cons in Hr. now inversion Hr.
+Qed.
+
+Lemma children_ok subs :
+  Forall (fun c => wf c = true -> Forall res_ok (descendants c) -> dec_ok (to_data c) c) subs ->
+  forallb wf subs = true -> Forall res_ok (flat_map nodes subs) ->
+  Forall (fun c => dec_ok (sub false to_data c) c) subs.
+Proof.
+  induction 1 as [|c r Hc Hr IH]; intros Hw Hres; [constructor|].
+  cbn in Hw, Hres. apply andb_prop in Hw as [Hw1 Hw2]. apply Forall_app in Hres as [R1 R2].
+  constructor; [now apply child_ok|now apply IH].
+Qed.
+
+Lemma XXnonnil {A} (l : list A) : negb (is_nil l) = true -> l <> [].
+Proof. destruct l; [discriminate|congruence]. Qed.
+Lemma XXnonnil_b {A} (l : list A) : negb (is_nil l) = true -> is_nil l = false.
+Proof. now destruct l. Qed.
+
+Lemma decode_core : forall p, wf p = true -> Forall res_ok (descendants p) -> dec_ok (to_data p) p.
+Proof.
+  induction p using pt_ind2; intros Hwf Hres st Hst; cbn [wf pt_hdr] in Hwf; split_and.
+  - (* Table *)
+    hdr_split h; raws; fin; rewrite table_nonempty by assumption; cbn [bind]; done_ok; reflexivity.
+  - (* Point *)
+    hdr_split h; optf "parameter_constraints" enc_strs c; optf "measurements" enc_measl m;
+      cbn [app dec_fields fst snd]; raws; fin; done_ok; reflexivity.
+  - (* Function *)
+    hdr_split h; raws; fin; done_ok; reflexivity.
+  - (* Constant *)
+    hdr_split h; raws; fin; done_ok; reflexivity.
+  - (* Sequence *)
+    assert (Hc : Forall (fun c => dec_ok (sub false to_data c) c) subs) by (apply children_ok; auto).
+    hdr_split h; optf "parameter_constraints" enc_strs c; optf "measurements" enc_measl m;
+      cbn [app dec_fields fst snd]; raws; use_subsN subs Hc st Hst; raws; fin.
+    all: match goal with Hn : negb (is_nil ?l) = true, Ee : map erase ?s = map erase ?l |- _ =>
+                rewrite (is_nil_map_eq _ _ _ Ee), (nonnil_b _ Hn) end; cbn [bind]; done_ok; close.
+  - (* Repetition *)
+    assert (Hc : dec_ok (sub false to_data p) p) by (apply child_ok; auto).
+    hdr_split h; optf "parameter_constraints" enc_strs c; optf "measurements" enc_measl m;
+      cbn [app dec_fields fst snd]; raws; use_sub Hc st Hst; raws; fin; done_ok; close.
+  - (* ForLoop *)
+    assert (Hc : dec_ok (sub false to_data p) p) by (apply child_ok; auto).
+    destruct r as [[ra rb] rc].
+    hdr_split h; optf "parameter_constraints" enc_strs c; optf "measurements" enc_measl m;
+      cbn [app dec_fields fst snd]; raws; use_sub Hc st Hst; raws; fin; done_ok; close.
+  - (* Mapping *)
+    assert (Hc : dec_ok (sub false to_data p) p) by (apply child_ok; auto).
+    hdr_split h; optf "parameter_mapping" enc_pmap pm; optf "measurement_mapping" enc_mmap mm;
+      optf "channel_mapping" (enc_cmap key_chan) cm; optf "parameter_constraints" enc_strs c;
+      cbn [app dec_fields fst snd]; raws; use_sub Hc st Hst; raws; fin.
+    all: match goal with Ee : erase ?c = erase ?p, Hn : negb (is_anon_map_without_constraints ?p) = true |- _ =>
+           rewrite (anon_map_sim _ _ Ee Hn) end; cbn [bind]; done_ok; close.
+  - (* AtomicMulti *)
+    assert (Hc : Forall (fun c => dec_ok (sub false to_data c) c) subs) by (apply children_ok; auto).
+    hdr_split h; optf "parameter_constraints" enc_strs c; optf "measurements" enc_measl m; destruct du as [du|];
+      cbn [some_field app dec_fields fst snd]; raws; use_subsN subs Hc st Hst; raws; fin.
+    all: match goal with Hn : negb (is_nil ?l) = true, Ee : map erase ?s = map erase ?l |- _ =>
+                rewrite (is_nil_map_eq _ _ _ Ee), (nonnil_b _ Hn) end; cbn [bind]; done_ok; close.
+  - (* Parallel *)
+    assert (Hc : dec_ok (sub false to_data p) p) by (apply child_ok; auto).
+    hdr_split h; raws; use_sub Hc st Hst; raws; fin; done_ok; close.
+  - (* Arithmetic *)
+    assert (Hc : dec_ok (sub false to_data p) p) by (apply child_ok; auto).
+    change (match sc with SExpr _ => true | SMap m => str_keys m end) with (scalar_ok sc) in *.
+    hdr_split h; destruct l; cbn [app dec_fields fst snd]; raws; use_sub Hc st Hst; raws; fin;
+      rewrite dscalar_ok by assumption; cbn [bind]; done_ok; close.
+  - (* ArithmeticAtomic *)
+    cbn [descendants nodes tl] in Hres. apply Forall_app in Hres as [R1 R2].
+    assert (Hc1 : dec_ok (sub false to_data p1) p1) by (apply child_ok; auto).
+    assert (Hc2 : dec_ok (sub false to_data p2) p2) by (apply child_ok; auto).
+    hdr_split h; optf "measurements" enc_measl m; cbn [app dec_fields fst snd]; raws.
+    all: destruct (dec_field_sub _ Hc2 st Hst) as (c2 & st2 & E2 & Ee2 & Hi2); rewrite E2; cbn [bind fst snd dec_fields].
+    all: destruct (dec_field_sub _ Hc1 st2 Hi2) as (c1 & st3 & E1 & Ee1 & Hi1); rewrite E1; cbn [bind fst snd dec_fields].
+    all: raws; fin; done_ok; close.
+  - (* TimeReversal *)
+    assert (Hc : dec_ok (sub false to_data p) p) by (apply child_ok; auto).
+    hdr_split h; raws; use_sub Hc st Hst; raws; fin; done_ok; close.
+  - (* Abstract *)
+    hdr_split h; destruct ch, pn, mn, ig, du; cbn [some_field app dec_fields fst snd]; raws; fin; done_ok; reflexivity.
+Qed.
+End Core.
